@@ -108,3 +108,76 @@ package breaker
 //@   prop C01
 //@   requires cb != nil
 //@   ensures calls(cb.throttle.doReq) == 1 && arg(cb.throttle.doReq, 0) == req && arg(cb.throttle.doReq, 1) == fallback && arg(cb.throttle.doReq, 2) == acceptable && result == ret(cb.throttle.doReq)
+
+// ---------------- construction, registry, promise form ----------------
+// The statistics window of a new breaker is 40 buckets of 250 ms (the trailing 10 s), its factor 1.5.
+//@ func newGoogleBreaker
+//@   prop C01
+//@   opaque NewRollingWindow, NewProba
+//@   ensures [ten-second-window] calls(collection.NewRollingWindow) == 1 && arg(collection.NewRollingWindow, 0) == 40 && arg(collection.NewRollingWindow, 1) == 250000000 && len(arg(collection.NewRollingWindow, 2)) == 0
+//@   ensures [factor-and-wiring] result != nil && result.k == 1.5 && result.stat == ret(NewRollingWindow) && result.proba == ret(NewProba) && fresh(result)
+// logError passes the error through unchanged (it only reports an open breaker).
+//@ func (loggedThrottle).logError
+//@   prop C01
+//@   opaque Report, ProcessName, Pid, Sprintf
+//@   ensures [unchanged] result == err
+//@   ensures [reports-only-rejections] (calls(Report) == 1) == (err == ErrServiceUnavailable)
+// allow (promise form): the inner throttle decides; its promise is wrapped, its error returned unchanged.
+//@ func (loggedThrottle).allow
+//@   prop C01
+//@   opaque logError
+//@   ensures [inner-decides] calls(lt.internalThrottle.allow) == 1 && calls(lt.logError, ret(lt.internalThrottle.allow, 1)) == 1 && result1 == ret(logError)
+//@   ensures [wraps-inner-promise] typeis(result0, promiseWithReason) && unbox(result0, promiseWithReason).promise == ret(lt.internalThrottle.allow, 0) && unbox(result0, promiseWithReason).errWin == lt.errWin
+// The wrapped promise records exactly one outcome on the inner promise: Accept a success, Reject a failure.
+//@ func (promiseWithReason).Accept
+//@   prop C01
+//@   ensures [one-success] calls(p.promise.Accept) == 1 && calls(Reject) == 0
+//@ func (promiseWithReason).Reject
+//@   prop C01
+//@   opaque add
+//@   ensures [one-failure] calls(p.promise.Reject) == 1 && calls(Accept) == 0 && calls(p.errWin.add, reason) == 1
+//@ func (*circuitBreaker).Allow
+//@   prop C01
+//@   requires cb != nil
+//@   ensures [forwards] calls(cb.throttle.allow) == 1 && result0 == ret(cb.throttle.allow, 0) && result1 == ret(cb.throttle.allow, 1)
+// New: options applied in order, a name is always present, the throttle is a logged Google breaker.
+//@ func New
+//@   prop C01
+//@   opaque Rand, newLoggedThrottle, newGoogleBreaker
+//@   ensures [google-breaker-behind-logging] calls(newGoogleBreaker) == 1 && calls(newLoggedThrottle) == 1 && unbox(arg(newLoggedThrottle, 1), ptr(googleBreaker)) == ret(newGoogleBreaker)
+//@   ensures [is-a-circuit-breaker] typeis(result, ptr(circuitBreaker)) && fresh(unbox(result, ptr(circuitBreaker)))
+//@   ensures [unnamed-gets-a-random-name] calls(Rand) == 1 ==> unbox(result, ptr(circuitBreaker)).name == ret(Rand)
+
+// The registry: one breaker per name, also when several goroutines ask for a new name at once. The map is shared
+// under `lock` (other goroutines may register names whenever it is free): a breaker found under the read lock is
+// returned; otherwise the decision is taken again under the write lock - a breaker registered in between is
+// returned and nothing is created or overwritten; only a name still absent then gets a new breaker, registered
+// before the lock is released.
+//@ func Get
+//@   prop C01
+//@   opaque New, WithName
+//@   guards lock: mapof(breakers)
+//@   requires breakers != nil
+//@   let rl = on("lock", lock)
+//@   let foundFast = at(rl, has(breakers, name), 1)
+//@   ensures [found-under-read-lock] foundFast ==> result == at(rl, breakers[name], 1) && calls(New) == 0 && calls(on("lock", lock)) == 1
+//@   ensures [rechecked-under-write-lock] !foundFast && at(rl, has(breakers, name), 2) ==> result == at(rl, breakers[name], 2) && calls(New) == 0 && breakers[name] == at(rl, breakers[name], 2)
+//@   ensures [new-registered-once] !foundFast && !at(rl, has(breakers, name), 2) ==> calls(New) == 1 && has(breakers, name) && breakers[name] == ret(New) && result == ret(New)
+//@   ensures [others-untouched] !foundFast ==> forallk(s, string, s != name ==> has(breakers, s) == at(rl, has(breakers, s), 2))
+//@   ensures [locks-released] calls(on("lock", lock)) == calls(on("unlock", lock))
+//@ func do
+//@   prop C01
+//@   opaque Get
+//@   ensures [on-the-named-breaker] calls(Get, name) == 1 && calls(execute, ret(Get)) == 1 && result == ret(execute)
+//@ func Do$1
+//@   prop C01
+//@   ensures calls(b.Do, req) == 1 && result == ret(b.Do)
+//@ func DoWithAcceptable$1
+//@   prop C01
+//@   ensures calls(b.DoWithAcceptable, req, acceptable) == 1 && result == ret(b.DoWithAcceptable)
+//@ func DoWithFallback$1
+//@   prop C01
+//@   ensures calls(b.DoWithFallback, req, fallback) == 1 && result == ret(b.DoWithFallback)
+//@ func DoWithFallbackAcceptable$1
+//@   prop C01
+//@   ensures calls(b.DoWithFallbackAcceptable, req, fallback, acceptable) == 1 && result == ret(b.DoWithFallbackAcceptable)
